@@ -16,8 +16,16 @@ type ValueObject struct {
 func (_ ValueObject) Kind() ValueKind { return ObjectValueKind }
 
 func (self ValueObject) Display() (string, *Interrupt) {
+	// Render the fields in a stable (sorted) order: Go's map iteration order is random.
+	keys := make([]string, 0, len(self.FieldsInternal))
+	for key := range self.FieldsInternal {
+		keys = append(keys, key)
+	}
+	sort.Strings(keys)
+
 	fields := make([]string, 0)
-	for key, field := range self.FieldsInternal {
+	for _, key := range keys {
+		field := self.FieldsInternal[key]
 		disp, err := (*field).Display()
 		if err != nil {
 			return "", err
